@@ -24,7 +24,7 @@ TECHNIQUE = "static analysis: path tables of the handshake state machine and its
 HS = 'io_loop::handshake_state::HandshakeState::'
 PROC = HS + 'process'
 CONN = 'amq_protocol::protocol::connection::'
-FU = 'errors::FrameUnexpectedSnafu::fail(errors::FrameUnexpectedSnafu)'
+FU = 'Err(errors::Error::FrameUnexpected)'
 
 
 def tf(ty):
@@ -67,7 +67,7 @@ def run(ctx):
         r.check('Start', len(x) == 1 and notable(x[0].effects) == want and x[0].value_str() == 'Ok(())', site, built=[notable(y.effects) for y in x], expected=want)
         # Secure
         x = find(HS + 'Secure(_, _)', (tf('Secure'), 'Ok(_)'))
-        r.check('Secure:challenge', len(x) == 1 and x[0].value_str() == 'errors::SaslSecureNotSupportedSnafu::fail(errors::SaslSecureNotSupportedSnafu)' and x[0].done == 'return'
+        r.check('Secure:challenge', len(x) == 1 and x[0].value_str() == 'Err(errors::Error::SaslSecureNotSupported)' and x[0].done == 'return'
                 and not [e for e in notable(x[0].effects) if e.startswith(('self =', 'io_loop::Inner::push'))], site, built=[y.row() for y in x],
                 expected='Secure frame -> SaslSecureNotSupported, nothing sent')
         x = find(HS + 'Secure(_, _)', (tf('Secure'), 'Err(_)'))
@@ -124,10 +124,10 @@ def run(ctx):
         got = {x.conds[-1][1]: (x.value_str(), x.done) for x in okr}
         r.eq('Done', got.get(HS + 'Done(_, _, _)'), ('Ok(($m0.Done.0, $m0.Done.1, $m0.Done.2))', None), site)
         r.eq('ServerClosing', got.get(HS + 'ServerClosing(_)'),
-             ('errors::ServerClosedConnectionSnafu::fail(errors::ServerClosedConnectionSnafu{code: $m0.ServerClosing.0.reply_code, message: $m0.ServerClosing.0.reply_text})', None), site)
+             ('Err(errors::Error::ServerClosedConnection{code: $m0.ServerClosing.0.reply_code, message: $m0.ServerClosing.0.reply_text})', None), site)
         e1 = [x for x in err if x.conds[-1][1] == '(%sSecure(_, _), errors::Error::UnexpectedSocketClose)' % HS]
         e2 = [x for x in err if x.conds[-1][1] == 'not (%sSecure(_, _), errors::Error::UnexpectedSocketClose)' % HS]
-        r.check('socket-closed-after-StartOk', len(e1) == 1 and e1[0].value_str() == 'errors::InvalidCredentialsSnafu::fail(errors::InvalidCredentialsSnafu)', site, built=[x.row() for x in err],
+        r.check('socket-closed-after-StartOk', len(e1) == 1 and e1[0].value_str() == 'Err(errors::Error::InvalidCredentials)', site, built=[x.row() for x in err],
                 expected='(Secure, UnexpectedSocketClose) => InvalidCredentials', why='InvalidCredentials only when the connection is dropped after StartOk without a reply')
         r.check('other-errors-unchanged', len(e2) == 1 and e2[0].value_str() == 'Err(%s.Err.0)' % loop and err.index(e2[0]) > (err.index(e1[0]) if e1 else -1), site, built=[x.row() for x in e2],
                 expected='every other (state, error) => Err(err) unchanged', why='SaslSecureNotSupported, ConnectionTimeout, MalformedFrame ... must keep their identity')
@@ -140,10 +140,10 @@ def run(ctx):
         SUP = fnp + '::server_supports'
         mech = 'auth::Sasl::mechanism(self.auth)'
         bad_mech = [x for x in rows if x.conds == [('%s(start.mechanisms, %s)' % (SUP, mech), False)]]
-        r.check('unsupported-mechanism', len(bad_mech) == 1 and bad_mech[0].value_str() == 'errors::UnsupportedAuthMechanismSnafu::fail(errors::UnsupportedAuthMechanismSnafu{available: start.mechanisms, requested: %s})' % mech,
+        r.check('unsupported-mechanism', len(bad_mech) == 1 and bad_mech[0].value_str() == 'Err(errors::Error::UnsupportedAuthMechanism{available: start.mechanisms, requested: %s})' % mech,
                 site, built=[x.row() for x in rows][:1])
         bad_loc = [x for x in rows if len(x.conds) == 2 and x.conds[1] == ('%s(start.locales, self.locale)' % SUP, False)]
-        r.check('unsupported-locale', len(bad_loc) == 1 and bad_loc[0].value_str() == 'errors::UnsupportedLocaleSnafu::fail(errors::UnsupportedLocaleSnafu{available: start.locales, requested: self.locale})', site,
+        r.check('unsupported-locale', len(bad_loc) == 1 and bad_loc[0].value_str() == 'Err(errors::Error::UnsupportedLocale{available: start.locales, requested: self.locale})', site,
                 built=[x.row() for x in bad_loc])
         okr = [x for x in rows if x.value_str().startswith('Ok((')]
         want = 'Ok((%sStartOk{client_properties: client_properties, locale: self.locale, mechanism: %s, response: auth::Sasl::response(self.auth)}, start.server_properties))' % (CONN, mech)
@@ -254,7 +254,7 @@ def run(ctx):
                 okr[0].value_str() == 'Ok((join_handle, crossbeam_channel::Receiver::recv(handshake_done_rx).Ok.0.1, io_loop::channel_handle::Channel0Handle::new(ch0_handle, crossbeam_channel::Receiver::recv(handshake_done_rx).Ok.0.0)))',
                 ctx.site('io_loop::IoLoop::wait_for_amqp_handshake'), built=[x.row() for x in okr])
         errs = [x for x in rows if not x.value_str().startswith('Ok(') and x.done != 'panic']
-        r.check('failure-yields-io-thread-error', len(errs) == 2 and sorted(x.value_str() for x in errs) == ['Err(std::thread::JoinHandle::join(join_handle).Ok.0.Err.0)', 'errors::IoThreadPanicSnafu::fail(errors::IoThreadPanicSnafu)'],
+        r.check('failure-yields-io-thread-error', len(errs) == 2 and sorted(x.value_str() for x in errs) == sorted(['Err(std::thread::JoinHandle::join(join_handle).Ok.0.Err.0)', 'Err(errors::Error::IoThreadPanic)']),
                 ctx.site('io_loop::IoLoop::wait_for_amqp_handshake'), built=[x.row() for x in errs])
 
     with ctx.rule('R16.9', 'every connection option set survives the builder chain: each setter changes its own field only (shared with C19)', floor=7) as r:
